@@ -355,16 +355,21 @@ def _atom_shape(a, ranks):
 
 
 def _is_negated_positive(v):
-    """-i for a loop variable / size symbol i (a slice bound counted from the end)"""
+    """-(positive quantity): every term has a negative coefficient and is a product of loop / size / integer symbols
+    (a slice bound counted from the end, e.g. -i or -(step + t*step))"""
     if not isinstance(v, Rat) or not v.den_is_one():
         return False
     ts = v.terms()
-    if ts is None or len(ts) != 1:
+    if not ts:
         return False
-    c, m = ts[0]
-    c = complex(c)
-    return c.imag == 0 and c.real < 0 and len(m) == 1 and isinstance(m[0][0], Sym) and \
-        any(f in m[0][0].flags for f in ("loopvar", "size", "int")) and m[0][1] == 1
+    for c, m in ts:
+        c = complex(c)
+        if c.imag != 0 or c.real >= 0 or not m:
+            return False
+        for a, e in m:
+            if not (isinstance(a, Sym) and any(f in a.flags for f in ("loopvar", "size", "int")) and e > 0):
+                return False
+    return True
 
 
 def count_of(v, ranks):
